@@ -40,6 +40,10 @@ func (o vSessOpts) list() []carv2.Option {
 // vValidBlockT: block from the collision alphabet whose data hashes to its CID.
 func vValidBlockT(tag string, maxData int) vEntry {
 	c := vCidT(tag)
+	if c.Prefix().MhType == 0 {
+		// identity: the data is the digest
+		return vEntry{c, vIdentityPayload(c)}
+	}
 	data := vBytes(tag+".data", vChoose(tag+".len", maxData+1))
 	vAssume(vValidBlock(c, data))
 	return vEntry{c, data}
